@@ -142,7 +142,7 @@ UNJUDGED = {
   ("stl_reader", "program_start_tc"): lambda v: isinstance(v, str) and v.upper() == "TCP",
   ("stl_reader", "max_row_count"): lambda v: isinstance(v, str) and v.upper() == "MNR",
   ("scc_reader", "text_align"): lambda v: isinstance(v, str) and v.lower() in ("auto", "left", "center", "right"),
-  ("lcd", "safe_area"): lambda v: isinstance(v, float) and 0 <= v <= 30,
+  ("lcd", "safe_area"): lambda v: (isinstance(v, (float, bool)) and 0 <= v <= 30) or (isinstance(v, str) and v.strip().isdigit() and 0 <= int(v) <= 30),
 }
 
 
